@@ -2157,6 +2157,11 @@ def ret_kind(P, t):
     return None
 
 
+def write_if_changed(path, text):
+    if not os.path.exists(path) or open(path).read() != text:
+        open(path, "w").write(text)
+
+
 def translate(repo, lean_out, harness_src, report_path):
     P = Prog()
     report = dict(source=[], translated=[], unmodelled=[], methods=[], functions=[])
@@ -2225,17 +2230,34 @@ def translate(repo, lean_out, harness_src, report_path):
             visit(key)
     for key, why in failed.items():
         report["unmodelled"].append(dict(item=key, why=why, line=P.fns[key].node.line))
-    core, asm = [], []
+    # the logical-immediate encoder and what it calls go into a module of their own: the kernel-evaluated round-trip
+    # slices (DoraModel/A64/LogImm) depend only on it, so unrelated edits of arm64.rs do not rebuild them
+    logimm_keys = set()
+
+    def closure(key):
+        if key in logimm_keys or key not in calls:
+            return
+        logimm_keys.add(key)
+        for c in calls[key]:
+            closure(inv[c])
+    if "encode_logical_imm" in P.fns and not P.fns["encode_logical_imm"].failed:
+        closure("encode_logical_imm")
+        if any(P.fns[k].okind != "free" for k in logimm_keys):
+            logimm_keys = set()
+    core, asm, logimm = [], [], []
     for key in order:
         fi = P.fns[key]
         if fi.failed:
             continue
-        (asm if fi.level == 2 else core).append(texts[key])
+        (logimm if key in logimm_keys else asm if fi.level == 2 else core).append(texts[key])
         report["translated"].append(dict(item=key, level=fi.level, lean=fi.lean))
     os.makedirs(lean_out, exist_ok=True)
     srcs = ", ".join(os.path.relpath(f, repo) for f in files)
+    write_if_changed(os.path.join(lean_out, "A64LogImm.lean"),
+                     "import DoraModel.A64.Prelude\n" + HEADER % srcs
+                     + "set_option linter.unusedVariables false\nnamespace Dora.A64\n\n" + "\n".join(logimm) + "\nend Dora.A64\n")
     with open(os.path.join(lean_out, "A64.lean"), "w") as f:
-        f.write("import DoraModel.A64.Prelude\n" + HEADER % srcs)
+        f.write("import DoraModel.A64.Prelude\nimport DoraModel.Gen.A64LogImm\n" + HEADER % srcs)
         f.write("set_option linter.unusedVariables false\nnamespace Dora.A64\n\n")
         f.write(emit_types(P) + "\n" + emit_consts(P) + "\n" + "\n".join(core))
         f.write("\nend Dora.A64\n")
